@@ -14,7 +14,7 @@ import json
 
 META = dict(
     id="C35",
-    specs=["SshPackets.tla", "SshPacketsMC.tla", "SshPacketsTrace.tla"],
+    specs=["SshPackets.tla", "SshPacketsMC.tla", "SshPacketsTrace.tla", "SshIdent.tla"],
     technique="TLA+ spec of the SSH binary packet stream as seen by the peer (TLC exhaustive over all small wires, tamper classes and segmentations) + TLC trace validation of real SSHTransportBase sender/receiver pairs for every offered cipher x MAC x compression, random payloads, banner lines, segmentations and single-byte corruptions",
     level_text="TLC checks on the specification, for every small wire (banner lines, version line, packets), every tamper class and every segmentation, that the dispatched payloads are exactly the reference function of the consumed prefix (in order, complete at the end), that there is no disconnect on an unaltered wire, and that an altered MAC-protected packet is never dispatched and leads to a disconnect; every recorded execution of real SSHTransportBase pairs is validated by TLC as a behaviour of that specification with every logged field matched and the invariants evaluated at every step.",
     level_note="Trusted: TLC, the `cryptography` primitives and zlib (ciphers/MACs are perfect in the spec), the adapter's mapping of received payload bytes to the identity of the equal sent payload (unknown bytes map to id 0, which the spec never accepts). Transports are keyed by the real KEXINIT negotiation plus the real key derivation with a fixed shared secret (no Diffie-Hellman). Not decided: payload sequences / segmentations beyond those sampled; re-keying mid-session; messages mixed with queued service messages during key exchange.",
@@ -238,7 +238,7 @@ def build_wire(plan):
         ms = len(s.currentEncryptions.makeMAC(0, b""))
     finally:
         randbytes.secureRandom = old
-    banners = [BANNERS[b] for b in plan["banners"]]
+    banners = [b[4:].encode("latin-1") if b.startswith("raw:") else BANNERS[b] for b in plan["banners"]]
     pieces = banners + ts.writes
     kinds = ["banner"] * len(banners) + kinds
     obs = [None] * len(banners) + obs
@@ -517,6 +517,83 @@ def fingerprint(trace, rej):
     return "tamper-%s/delivery-mismatch/%s/%s" % (cfg["treg"], e["e"], phase)
 
 
+CONCRETE = {"X": b"xxxxxxxx", "S": b"SSH-", "N": b"\n"}
+
+
+def impl_layer(ctx, cfg3):
+    """Impl layer for the identification phase (specs/SshIdent.tla): the scan of dataReceived as coded, model-checked
+    by TLC against the reference for every small wire and every segmentation.  Counterexamples are statements about
+    the model only: each is concretised, replayed on the real SSHTransportBase and judged by the SshPackets trace spec."""
+    import re
+    from harness.core import parse_tla_value, MachineryError
+    r = ctx.mc("SshIdent", "SshIdentFixed.cfg", coverage=False, label="identification scan of proposed_fixes/C35-ident-line-scan.diff")
+    if not r.ok:
+        raise MachineryError("SshIdent: the repaired scan violates the reference: " + r.error)
+    r = ctx.mc("SshIdent", "SshIdent.cfg", args=["-continue"], must_pass=False, coverage=False, workers=1, label="identification scan as coded")
+    if "Error: Invariant" not in r.out:        # (with -continue TLC's summary line is not a verdict)
+        if not r.ok:
+            raise MachineryError("SshIdent: TLC failed: " + r.error)
+        ctx.log("SshIdent: the scan as coded satisfies the reference (no counterexample)")
+        return []
+    cex = set()
+    for sect in re.split(r"Error: Invariant \w+ is violated", r.out)[1:]:
+        states = re.findall(r"^State \d+:.*?(?=^State \d+:|\Z|^Error|^\d+ states generated)", sect, re.S | re.M)
+        if not states:
+            continue
+        last = states[-1]
+        w = re.search(r"/\\ wire = (<<.*?>>)", last, re.S)
+        h = re.search(r"/\\ hist = (<<.*?>>)", last, re.S)
+        if w and h:
+            cex.add((tuple(parse_tla_value(w.group(1))), tuple(parse_tla_value(h.group(1)))))
+    if not cex:
+        raise MachineryError("SshIdent: cannot read the TLC counterexamples: " + r.error)
+    ctx.extra["ident_model_counterexamples"] = len(cex)
+    chosen = sorted(cex, key=lambda c: (len(c[1]), len(c[0]), c))[:ctx.pick(40, 400)]
+    out = []
+    c, m, z = cfg3
+    for n, (wire, hist) in enumerate(chosen):
+        wire = list(wire)
+        v = max(i for i in range(len(wire) - 2) if wire[i:i + 3] == ["S", "V", "N"] and (i == 0 or wire[i - 1] == "N"))
+        lines, cur = [], b""
+        for sym in wire[:v]:
+            cur += CONCRETE[sym]
+            if sym == "N":
+                lines.append("raw:" + cur.decode("latin-1"))
+                cur = b""
+        plan = dict(cipher=c, mac=m, comp=z, banners=lines, pre=[], tamper=None, seed=990000 + n,
+                    post=[["svc", 90, "rand", 40, 99000000 + 2 * n], ["svc", 91, "text", 70, 99000001 + 2 * n]])
+        w = build_wire(plan)
+        items = w["items"]
+        vi = [i for i, it in enumerate(items) if it["k"] == "version"][0]
+        vstart = items[vi - 1]["end"] if vi else 0
+        size = {}
+        offs, o = [], 0
+        for i, sym in enumerate(wire):
+            if i < v:
+                o += len(CONCRETE[sym])
+            elif i == v:
+                o = vstart + 4
+            elif i == v + 1:
+                o = items[vi]["end"] - 1
+            elif i == v + 2:
+                o = items[vi]["end"]
+            elif sym == "P1":
+                o = items[vi + 1]["end"]
+            else:
+                o = items[-1]["end"]
+            offs.append(o)
+        cuts, k = [], 0
+        for hk in hist:
+            k += hk
+            cuts.append(offs[k - 1])
+        t = run_case(plan, cuts, w)
+        t["impl_cex"] = True
+        out.append(t)
+    ctx.log("SshIdent: %d distinct TLC counterexamples of the scan as coded, %d replayed on the real transport" % (len(cex), len(out)))
+    return out
+
+
+
 def report(ctx, traces, rej):
     for x in rej[:40]:
         t = traces[x.idx]
@@ -525,11 +602,6 @@ def report(ctx, traces, rej):
                       "real SSHTransportBase execution not explained by SshPackets.tla at event %d: %s (cipher=%s mac=%s comp=%s banners=%s tamper=%s/%s)"
                       % (x.reached, e, t["plan"]["cipher"], t["plan"]["mac"], t["plan"]["comp"], t["plan"]["banners"], t["cfg"]["tj"], t["cfg"]["treg"]),
                       dict(plan=t["plan"], cuts=t["cuts"], rejected_at=x.reached))
-
-
-def strip(t):
-    # the spec reads cfg and ev only; keep plan/cuts for replay but drop nothing else
-    return t
 
 
 def run(ctx):
@@ -542,10 +614,11 @@ def run(ctx):
     ctx.require_actions("SshPacketsMC", ["Deliver", "Flood", "End"])
 
     offered, extra = configs()
+    impl_traces = impl_layer(ctx, offered[0])
     ctx.extra["configurations"] = len(offered)
     ctx.extra["extra_configurations_none"] = len(extra)
     per = ctx.pick(20, 600)
-    traces = []
+    traces = list(impl_traces)
     seed = ctx.seed * 1000003
     for (c, m, z) in offered + extra:
         for i in range(per if (c, m, z) in offered else per // 2 + 1):
@@ -576,6 +649,10 @@ def run(ctx):
     rej = ctx.validate("SshPacketsTrace", lean, shard_size=ctx.pick(1500, 4000))
     report(ctx, traces, rej)
     bad = {x.idx for x in rej}
+    # TLC counterexamples of the Impl model which the real code does not reproduce = the model drifted from the code
+    ctx.impl_drift = sum(1 for i in range(len(impl_traces)) if i not in bad)
+    ctx.extra["impl_counterexamples_replayed"] = len(impl_traces)
+    ctx.extra["impl_counterexamples_reproduced_on_real_code"] = len(impl_traces) - ctx.impl_drift
     good = [t for i, t in enumerate(lean) if i not in bad]
     ctx.extra["tampered_traces"] = sum(1 for t in traces if t["cfg"]["tj"])
     ctx.extra["flooded_traces"] = sum(1 for t in traces if any(e["e"] == "flood" for e in t["ev"]))
